@@ -145,6 +145,12 @@ class Program:
                 f = self.fns.get(owner.name + '::' + pm.group(2))
                 if f is not None:
                     return f
+            # a function nested in another item is printed under its bare name
+            bare = pm.group(1).split('::')[-1]
+            if re.match(r'^[A-Za-z_][A-Za-z0-9_]*$', bare):
+                f = self.fns.get(bare + '::' + pm.group(2))
+                if f is not None:
+                    return f
         k = norm_callee(callee)
         cands = self.index.get(k)
         if not cands and k.startswith('<') and ' as ' in k:
